@@ -42,6 +42,7 @@ def run(facts, rep):
     d3_publication(facts, rep)
     d4_zero_fill(facts, rep)
     d5_capacity_is_the_allocated_prefix(facts, rep)
+    d5_iterator_cache_and_table_bounds(facts, rep)
     d6_width(facts, rep)
     d7_fresh_poll(facts, rep)
     d8_cleanup_access(facts, rep)
@@ -781,3 +782,90 @@ def d9_wait_path_reports_failed_segments(facts, rep):
         rep.ob('D9', 'K13', fn, 'the waiting path of grow_to_at_least leaves by an exception when a segment below n is tagged as failed', ok,
                'no comparison of the awaited table entries with segment_allocation_failure_tag that ends in throw_exception: after a failed '
                'growth call grow_to_at_least(n) returns normally although the elements below n do not exist (size() < n)', key_extra='wait-path-tag')
+
+
+def d5_iterator_cache_and_table_bounds(facts, rep):
+    """"the address of an element never changes ... references and iterators stay valid"; "Index-to-segment arithmetic is a
+    bijection"; "without touching unallocated memory".
+    (a) vector_iterator caches the element's address (my_item) and steps it together with the index.  Segments are separate
+        allocations, so the pointer may be stepped only when the step stays inside one segment: going up, the boundary is crossed
+        iff the NEW index is the first element of a segment; going down, iff the OLD index is.  Rule: in operator++ the test
+        is_first_element_in_segment(my_index) is evaluated after the increment of my_index, in operator-- before the decrement.
+    (b) A segment-table entry is read with an index that was compared with the size of the table only if the comparison excludes
+        index == size (the table has number_of_segments entries, the last valid index is size-1)."""
+    n = 0
+    for fn in sorted(facts.fns.values(), key=lambda f: f.q):
+        if not (fn.cls or '').startswith(D1N + 'vector_iterator') or fn.p.split('::')[-1] not in ('operator++', 'operator--'):
+            continue
+        if fn.d.get('params'):
+            continue            # the postfix forms call the prefix forms
+        down = fn.p.endswith('operator--')
+        steps = [(pos, s) for pos, s, nd in fn.stmt_elems(('unop',)) if nd['op'] == ('--' if down else '++') and last_member(fn, nd['sub']) == 'my_index']
+        tests = [(pos, s) for pos, s, node, d in calls_named(fn, ('is_first_element_in_segment',))
+                 if node.get('a') and last_member(fn, node['a'][0]) == 'my_index']
+        if not steps or not tests:
+            raise AnalysisBroken('%s: step of my_index / boundary test not found' % fn.p)
+        n += 1
+        if down:
+            ok = all(not fn.can_reach(sp, tp) for sp, _ in steps for tp, _ in tests)
+        else:
+            ok = all(every_path_passes(fn, 'entry', lambda p_, e: p_ in set(sp for sp, _ in steps), end=tp)[0] for tp, _ in tests)
+        rep.ob('D5', 'K10', fn, 'the cached element pointer is stepped only when the step stays inside one segment (%s)' % ('down' if down else 'up'), ok,
+               'the segment-boundary test is applied to the %s index: decrementing an iterator that points at the first element of a segment '
+               'steps the cached pointer to an address in front of that segment instead of dropping the cache - *it is then a foreign '
+               'address, not v[index-1]' % ('new' if down else 'old'), key_extra='iter-cache')
+    if n < 2:
+        raise AnalysisBroken('vector_iterator::operator++ / operator-- not found')
+    # (b)
+    nb = 0
+    for fn in sorted(facts.fns.values(), key=lambda f: f.q):
+        if not ((fn.cls or '').startswith(D1N + 'concurrent_vector') or (fn.cls or '').startswith(D1N + 'segment_table')):
+            continue
+        ns = [s for pos, s, node, d in calls_named(fn, ('number_of_segments',))]
+        if not ns:
+            continue
+        defs = Defs(fn)
+        nvars = set(vars_of(fn, ns))
+        for pos, s, nd in fn.stmt_elems(('index',)):
+            iv = fn.n(fn.strip(nd.get('idx', -1)))
+            if iv.get('k') != 'var' or not iv.get('local'):
+                continue
+            vid = iv['v']
+            # comparisons of this index with the table size in this function
+            def cmp_kind(a):
+                x = fn.n(fn.strip(a))
+                if x.get('k') != 'binop' or x['op'] not in ('<', '<=', '>', '>='):
+                    return None
+                l, r = fn.strip(x['l']), fn.strip(x['r'])
+                def is_n(y):
+                    yn = fn.n(y)
+                    return y in ns or (yn.get('k') == 'var' and yn.get('v') in nvars)
+                def is_i(y):
+                    yn = fn.n(y)
+                    return yn.get('k') == 'var' and yn.get('v') == vid
+                if is_i(l) and is_n(r):
+                    return x['op']
+                if is_n(l) and is_i(r):
+                    return {'<': '>', '<=': '>=', '>': '<', '>=': '<='}[x['op']]
+                return None
+            atoms = [a for b, blk in fn.blocks.items() if blk.get('term') and 'c' in blk['term'] for a, t in fn.cond_atoms(blk['term']['c'], True)
+                     if cmp_kind(a)]
+            if not atoms:
+                continue
+            # loops `for (i = 0; i < n; ++i)` are bounded by construction; what matters are guards that reject an index
+            strict = edges_where(fn, lambda a, truth: (cmp_kind(a) == '<' and truth) or (cmp_kind(a) == '>=' and not truth))
+            # (throw_exception does not return, which the CFG does not know)
+            ok, wit = dominated_by_edges(fn, pos, strict, extra_elem=lambda p_, e: isinstance(e, int) and fn.nodes[e].get('k') == 'call' and
+                                         (fn.callee(e) or {}).get('n') == 'throw_exception')
+            nb += 1
+            rep.ob('D5', 'K14', fn, 'a table entry is read only with an index known to be below the number of segments (line %s)' % nd.get('ln'), ok,
+                   'the index is compared with number_of_segments() but index == size is let through (%s): the read goes one entry past the '
+                   'table - for the embedded table that is my_first_block, taken for a segment pointer' % wit, ln=nd.get('ln'),
+                   key_extra='table-bound|%s' % nd.get('ln'))
+    if nb < 3:
+        raise AnalysisBroken('table reads guarded by a comparison with number_of_segments(): %d (expected >= 3)' % nb)
+
+
+def vars_of(fn, call_nodes):
+    from engine.rules import vars_initialised_from
+    return vars_initialised_from(fn, call_nodes)
